@@ -141,6 +141,9 @@ def match_known(mod, pid, case, impl_res, model_res, failure, known):
                     return k
             except Exception:
                 pass
+            continue
+        if "kind" in m:      # matched by property / ops / kind alone
+            return k
     return None
 
 
@@ -372,6 +375,33 @@ def main(argv):
         c, r, m, f = results[0]
         print(json.dumps({"case": c, "impl": r, "model": m, "failure": f}, indent=1, default=str))
 
+    # a module whose implementation calls a multi-threaded solver (RERUN_FAILURES = True) has each of its first few
+    # failures evaluated again, alone, in a fresh worker process: a failure that does not come back is marked
+    # kind = "not-reproducible" (the implementation answered differently on the same input). That kind is only ever
+    # suppressed by an OPEN entry of known_findings.json; without one it is reported like any other failure.
+    rerun_log = []
+    if getattr(mod, "RERUN_FAILURES", False) and not replay:
+        budget = 8
+        for idx, (c, r, m, f) in enumerate(concrete_failures):
+            if budget <= 0:
+                break
+            if f.get("kind") == "timeout" or match_known(mod, pid, c, r, m, f, known):
+                continue
+            budget -= 1
+            came_back = 0
+            for _ in range(2):
+                try:
+                    rr, _t = evaluate(mod, [c], timeout_s, 1)
+                    if rr[0][3]:
+                        came_back += 1
+                except Exception:
+                    came_back += 1
+            rerun_log.append({"case_sha": case_sha(c), "op": c["op"], "failed_again": came_back, "of": 2,
+                              "first_reason": str(f.get("reason", ""))[:300]})
+            if came_back == 0:
+                f2 = dict(f, kind="not-reproducible", original_kind=f.get("kind"))
+                concrete_failures[idx] = (c, r, m, f2)
+
     # known findings / violations
     reported = 0
     for c, r, m, f in concrete_failures:
@@ -383,7 +413,7 @@ def main(argv):
             reported += 1
             continue
         sc = c
-        if not replay and f.get("kind") != "timeout" and reported < 3 and time.time() - t_start < 300:
+        if not replay and f.get("kind") not in ("timeout", "not-reproducible") and reported < 3 and time.time() - t_start < 300:
             try:
                 sc, _ = shrink(mod, c, min(timeout_s, 5.0))
             except Exception:
@@ -470,6 +500,7 @@ def main(argv):
             "impl_line_coverage": coverage_info,
             "concrete_failures": len(concrete_failures),
             "source_fingerprint": extra_info,
+            "reruns_of_failures": rerun_log,
         },
         "assumptions": list(getattr(mod, "ASSUMPTIONS", [])),
         "wall_s": wall,
